@@ -239,7 +239,8 @@ where
     CK<S>: LinCodeParametersInfo<MT, ColH<Fr381>>,
 {
     let sizes: Vec<usize> = if S::FAM == Fam::Uni {
-        (1..=if thorough { 16 } else { 13 }).map(|k| 1usize << k).collect()
+        // degrees 2^k (an odd number of coefficients) and 2^k - 1 (a power of two)
+        (1..=if thorough { 16 } else { 15 }).flat_map(|k| [(1usize << k) - 1, 1usize << k]).filter(|d| *d >= 2).collect()
     } else {
         (2..=if thorough { 16 } else { 13 }).collect()
     };
